@@ -28,6 +28,15 @@ CHECKS = {
     'C08': dict(tech='exhaustive enumeration of probes (bound-1, bound, bound+1, every wrong Python type, related/unrelated classes) for every parameterised primitive and every universe shape through three doors',
                 text='accept <=> valid by the reference predicate derived from stone.ir, refusal is always ValidationError, accepted values read back equal up to the documented normalisations.',
                 note='bool offered to numeric types is unspecified; for user types the class relation is judged.', ref='6/C08'),
+    'C07': dict(tech='BFS over spec histories (compatible edits at every site) with old and new generated packages loaded side by side; every ancestor pair compared against a reference reading',
+                text='Every history of compatible edits up to the length bound from a base spec in which every edit site is reachable through every nesting position; for every version B and every ancestor A: every varied boundary value of every common type, both directions, strict and lenient, compared with the reference reading of the message by the receiving version; new fields read as their defaults.',
+                note='The A-view is the lenient branch of the reference document reading (mc/rtdoc.py); A->B through a Void tag retyped to a non-nullable type is not judged.', ref='6/C07'),
+    'C10': dict(tech='exhaustive product of (parameterised primitive, boundary literal) defaults and BFS-explored example models, executed on the generated classes',
+                text='Every accepted default reads back as declared and is accepted on assignment; invalid literals that the compiler accepts must be accepted by the runtime too; every computed example of every explored model and of the rich example specs decodes strictly and re-encodes to the same document.',
+                note='Examples are decoded on behalf of a caller holding every declared permission; the catch-all example is excluded.', ref='6/C10'),
+    'C13': dict(tech='complete bounded product of annotation placements x permission subsets x redaction on/off x encoders, packed into generated specs and executed on the serializers',
+                text='Omission patterns over inheritance chains (depth 3 quick / 4 thorough) and union chains, omitted fields behind containers, union members and subtype trees, for every subset of the caller classes: visible iff permitted, strict decode refuses iff not permitted; every redactor kind at every eligible placement: no clear sentinel in the output with redaction on, exact mask at scalar positions, untouched with redaction off.',
+                note='Visibility/redaction model from lang_ref.rst; exact masks judged at scalar and one-level positions only.', ref='6/C13'),
 }
 
 NOT_YET = {}
